@@ -10,7 +10,7 @@ PROPS_FOR = {  # reverted repairs: property whose check is expected to see it
  "R01": "C17", "R02": "C17", "R03": "C02", "R04": "C02", "R05": "C02", "R06": "C01", "R07": "C02", "R08": "C01", "R09": "C14",
  "R10": "C13", "R11": "C11", "R12": "C11", "R13": "C10", "R14": "C15", "R15": "C08", "R16": "C09", "R17": "C17", "R18": "C11",
  "R19": "C09", "R20": "C09", "R21": "C03", "R22": "C03"}
-EXTRA = {"C08d": ["C06"], "C03e": ["C01"], "C03f": ["C01"]}
+EXTRA = {"C08d": ["C06"], "C03e": ["C01"], "C03f": ["C01"], "C16g": ["C06"], "C01g": ["C18"]}
 names = sys.argv[1:] or sorted(os.listdir(os.path.join(ROOT, "seeded")))
 for name in names:
     d = os.path.join(ROOT, "seeded", name)
@@ -67,6 +67,6 @@ for name in names:
                 subprocess.call("rm -rf %s/build/%s-alt*" % (ROOT, prop_try), shell=True)
     finally:
         subprocess.call(["git", "-C", "/repo", "worktree", "remove", "--force", wt])
-        subprocess.call("rm -rf %s/build/*-alt*" % ROOT, shell=True)
+        pass    # (build/<prop>-alt* is removed per property above; a global removal would disturb parallel streams)
     json.dump(res, open(os.path.join(d, "result.json"), "w"), indent=1)
     print(name, prop, res.get("status"), res.get("tier", ""), res.get("cond", ""), res.get("vcheck_wall_s", ""), flush=True)
